@@ -99,3 +99,14 @@ Theorem C05_statements_parse_back : forall (P: Type) rp (x: StmtTrip.st), StmtTr
                   StreamLib.Up P s' (stop :: l0) /\ RoundTrip.strip N = StmtTrip.embs x.
 Proof. exact StmtTrip.parse_of_generated_statement. Qed.
 Print Assumptions C05_statements_parse_back.
+
+(* "declarations and statements of a block appear in source order": the same completeness statement for statements whose
+   blocks - at any depth - hold the declarations `T x;` / `T x = e;` among their items: the Compound node lists one Decl per
+   declaration and one node per statement, in source order ([StmtTrip.embs]); the scope stack must hold no typedef name. *)
+Theorem C05_blocks_with_declarations_parse_back : forall (P: Type) rp (x: StmtTrip.st), StmtTrip.swfD x ->
+  forall (s: ParserBase.pstate P) le stop l0, RoundTrip.Spell P le (StmtTrip.stoks rp x) -> StreamLib.Up P s (le ++ stop :: l0) ->
+  (StmtTrip.sopen x = true -> kind_eqb (ParserBase.tk stop) K_ELSE = false) -> StreamLib.NoTD (ParserBase.scopes P s) ->
+  exists f0 N s', (forall f, (f0 <= f)%nat -> ParserMain.p_statement P f s = ParserBase.Ok (N, s')) /\
+                  StreamLib.Up P s' (stop :: l0) /\ RoundTrip.strip N = StmtTrip.embs x /\ StreamLib.NoTD (ParserBase.scopes P s').
+Proof. exact StmtTrip.parse_of_generated_statement_with_decls. Qed.
+Print Assumptions C05_blocks_with_declarations_parse_back.
